@@ -1,17 +1,28 @@
 """C11 - VLQ codec exactness (structural clauses)."""
 from rules import vlqrules
-from rules.common import guarded
+from rules.common import run_rules
 
 EXPLANATION = ("C11: decides the structural clauses of the VLQ codec: (R1) the alphabet and reverse tables, compared "
                "exhaustively over all 256 entries from the compiler-evaluated constants; (R2) the bit layout of writer and "
                "reader (sign in bit 0, 5-bit groups, continuation bit 5, shift step 5, do-while emission) read from the "
                "definitions of the running variables in MIR; (R3) the reader's error guards (leftover, no values, checked "
-               "shift, foreign-byte sentinel).")
+               "shift, foreign-byte sentinel); (R4) panic-freedom of the codec under the 62-bit precondition.")
 NOT_DECIDED = "decode(encode(xs)) == xs and canonical-text idempotence as value-level statements over the integer ranges."
 ASSUMPTIONS = ["|n| < 2^62 for encode_vlq inputs (the map encoder only passes differences of two u32)"]
 
 
+def r4(ctx):
+    import pf
+    pf.check_bodies(ctx, "C11.R4", [ctx.body(vlqrules.READER), ctx.body(vlqrules.WRITER), ctx.body("vlq::parse_vlq_segment"), ctx.body("vlq::generate_vlq_segment")])
+
+
+RULES = {
+    "C11.R1": lambda ctx: vlqrules.tables(ctx, "C11.R1"),
+    "C11.R2w": lambda ctx: vlqrules.writer_shape(ctx, "C11.R2w"),
+    "C11.R2r": lambda ctx: vlqrules.reader_shape(ctx, "C11.R2r"),
+    "C11.R4": r4,
+}
+
+
 def check(ctx):
-    guarded(ctx, "C11.R1", "vlq::<consts>", lambda: vlqrules.tables(ctx, "C11.R1"))
-    guarded(ctx, "C11.R2w", vlqrules.WRITER, lambda: vlqrules.writer_shape(ctx, "C11.R2w"))
-    guarded(ctx, "C11.R2r", vlqrules.READER, lambda: vlqrules.reader_shape(ctx, "C11.R2r"))
+    run_rules(ctx, RULES)
